@@ -119,7 +119,7 @@ class Executor:
     # ------------------------------------------------------------------
     # truthiness
     # ------------------------------------------------------------------
-    def truth(self, v: SV):
+    def truth(self, v: SV, st=None):
         k = v.ty.kind
         if k == "bool":
             return v.v
@@ -130,13 +130,13 @@ class Executor:
         if k == "none":
             return z3.BoolVal(False)
         if k == "opt":
-            return z3.And(z3.Not(v.v[0]), self.truth(v.v[1]))
+            return z3.And(z3.Not(v.v[0]), self.truth(v.v[1], st))
         if k == "ref":
             if self.resolve_method(v.ty.cls, "__len__") is not None or self.resolve_method(v.ty.cls, "__bool__") is not None:
                 hook = self.w.call_hooks.get(("truth", "ref:" + v.ty.cls))
                 if hook is None:
                     raise Unsupported(f"truthiness of {v.ty.cls} (defines __len__/__bool__)")
-                return hook(self, v)
+                return hook(self, v, st)   # st: the state the object is looked at in (None where the caller has none)
             return v.v != 0
         if k == "tuple":
             return z3.BoolVal(len(v.v) > 0)
@@ -324,6 +324,53 @@ class Executor:
             else:
                 yield st2, mk_tuple(vals)  # heterogeneous fixed-size list treated as a tuple value
 
+    def ev_ListComp(self, node, st, sink):
+        """[elt for target in iter (if c)*]: the loop `$comp = []; for target in iter: (if c:) $comp.append(elt)` under a sidecar invariant
+        (LoopSpec keyed by (function, 'comp<n>'), n = syntactic ordinal of the comprehension; spec.elem = element type)."""
+        if len(node.generators) != 1 or node.generators[0].is_async:
+            raise Unsupported("comprehension with several generators")
+        fr = self.frame
+        if not hasattr(fr, "comp_ids"):
+            fr.comp_ids = {}
+            fn = fr.module.functions.get(fr.qualname)
+
+            def walk(n):
+                for ch in ast.iter_child_nodes(n):
+                    if isinstance(ch, (ast.FunctionDef, ast.AsyncFunctionDef, ast.Lambda, ast.ClassDef)):
+                        continue
+                    if isinstance(ch, ast.ListComp):
+                        fr.comp_ids[id(ch)] = len(fr.comp_ids)
+                    walk(ch)
+
+            if fn is not None:
+                walk(fn)
+        n = fr.comp_ids.get(id(node), -1)
+        key = (f"{fr.module.modname}:{fr.qualname}", f"comp{n}")
+        hook = self.w.call_hooks.get(("listcomp", key))
+        if hook is not None:   # a sidecar abstraction of this one comprehension (its exact text is then a static obligation of the property)
+            yield from hook(self, node, st, sink)
+            return
+        spec = self.w.loops.get(key)
+        if spec is None:
+            raise Unsupported(f"comprehension {key} has no invariant in the sidecar")
+        gen = node.generators[0]
+        cname = f"$comp{n}"
+        body = ast.Expr(value=ast.Call(func=ast.Attribute(value=ast.Name(id=cname, ctx=ast.Load()), attr="append", ctx=ast.Load()), args=[node.elt], keywords=[]))
+        for cond in reversed(gen.ifs):
+            body = ast.If(test=cond, body=[body], orelse=[])
+        loop = ast.For(target=gen.target, iter=gen.iter, body=[body], orelse=[], type_comment=None)
+        ast.copy_location(loop, node)
+        ast.fix_missing_locations(loop)
+        elem = getattr(spec, "elem", None) or ANY
+        for st2, it in self.ev(gen.iter, st, sink):
+            st2.locals[cname] = SV(SEQ(elem), z3.Empty(SEQ(elem).sorts()[0]), loc=("local", cname))
+            for s3, fl in self.run_loop(loop, st2, spec, key, it):
+                if fl[0] == NEXT:
+                    res = s3.locals.pop(cname)
+                    yield s3, SV(res.ty, res.v)
+                else:
+                    sink.append((s3, fl))
+
     def ev_Dict(self, node, st, sink):
         hook = self.w.call_hooks.get(("display", "dict"))
         if hook:
@@ -333,7 +380,7 @@ class Executor:
 
     def ev_IfExp(self, node, st, sink):
         for st1, c in self.ev(node.test, st, sink):
-            for st2, br in self.fork(st1, self.truth(c)):
+            for st2, br in self.fork(st1, self.truth(c, st1)):
                 yield from self.ev(node.body if br else node.orelse, st2, sink)
 
     def fork(self, st: State, cond):
@@ -360,7 +407,7 @@ class Executor:
                 if i == len(node.values) - 1:
                     yield st1, v
                     continue
-                for st2, br in self.fork(st1, self.truth(v)):
+                for st2, br in self.fork(st1, self.truth(v, st1)):
                     if br == is_or:
                         yield st2, v
                     else:
@@ -371,7 +418,7 @@ class Executor:
     def ev_UnaryOp(self, node, st, sink):
         for st1, v in self.ev(node.operand, st, sink):
             if isinstance(node.op, ast.Not):
-                yield st1, mk_bool(z3.Not(self.truth(v)))
+                yield st1, mk_bool(z3.Not(self.truth(v, st1)))
             elif isinstance(node.op, ast.USub) and v.ty.kind in ("int", "bool"):
                 yield st1, mk_int(-coerce(v, INT).v)
             else:
@@ -1303,7 +1350,7 @@ class Executor:
     def st_Assert(self, node, st):
         outs = []
         for st2, v in self.ev(node.test, st, outs):
-            for st3, ok in self.fork(st2, self.truth(v)):
+            for st3, ok in self.fork(st2, self.truth(v, st2)):
                 if ok:
                     outs.append((st3, (NEXT,)))
                 else:
@@ -1369,7 +1416,12 @@ class Executor:
         if node.value is None:
             return [(st, (NEXT,))]
         outs = []
+        ann = ast.unparse(node.annotation)
         for st2, v in self.ev(node.value, st, outs):
+            if v.ty.kind == "set" and ann in ("set[str]", "set[int]") and z3.is_app(v.v) and v.v.decl().kind() == z3.Z3_OP_CONST_ARRAY:
+                # `x: set[str] = set()`: the annotation types the empty set (an element of another type then fails to coerce)
+                ety = STR if ann == "set[str]" else INT
+                v = SV(SETT(ety), z3.K(ety.sorts()[0], z3.BoolVal(False)))
             for st3 in self.assign(node.target, v, st2, outs):
                 outs.append((st3, (NEXT,)))
         return outs
@@ -1448,6 +1500,16 @@ class Executor:
             for st2, base in self.ev(tgt.value, st, sink):
                 if isinstance(tgt.slice, ast.Slice):
                     hook = self.w.call_hooks.get(("setslice", base.ty.kind))
+                    sl = tgt.slice
+                    if hook is None and base.ty.kind == "seq" and sl.lower is None and sl.upper is None and sl.step is None and v.ty.kind == "seq":
+                        # x[:] = value : the list object keeps its identity, its contents become those of value
+                        if z3.is_app(v.v) and v.v.decl().kind() == z3.Z3_OP_SEQ_EMPTY:
+                            new = SV(base.ty, z3.Empty(base.ty.sorts()[0]))
+                        else:
+                            new = coerce(v, base.ty)
+                        self.write_back(st2, base.loc, new)
+                        res.append(st2)
+                        continue
                     if hook is None:
                         raise Unsupported("slice assignment")
                     res.extend(hook(self, base, tgt, v, st2, sink))
@@ -1507,7 +1569,7 @@ class Executor:
                 and isinstance(t.comparators[0], ast.Constant) and t.comparators[0].value is None:
             narrow = (t.left.id, isinstance(t.ops[0], ast.Is))
         for st2, c in self.ev(node.test, st, outs):
-            for st3, br in self.fork(st2, self.truth(c)):
+            for st3, br in self.fork(st2, self.truth(c, st2)):
                 if narrow is not None and narrow[0] in st3.locals and st3.locals[narrow[0]].ty.kind == "opt":
                     v = st3.locals[narrow[0]]
                     st3.locals[narrow[0]] = NONEV if br == narrow[1] else v.v[1]
@@ -1800,6 +1862,9 @@ class Executor:
         if is_for:
             k = body.locals[kname].v
             body.assume(k >= 0, k <= seq_len)  # inherent to iteration: the index runs from 0 to len
+            if getattr(elem_at, "seq", None) is not None:
+                # lemma of sequences: the element at a valid index is a member (the seq solvers do not derive it by themselves)
+                body.assume(z3.Implies(k < seq_len, z3.Contains(elem_at.seq, z3.Unit(elem_at.seq[k]))))
             for s_in, more in self.fork(body, k < seq_len):
                 if not more:
                     exits.append((s_in, "exhausted"))
@@ -1820,7 +1885,7 @@ class Executor:
             else:
                 conds = list(self.ev(node.test, body, cond_sink))
             for s_c, c in conds:
-                for s_in, go in self.fork(s_c, self.truth(c)):
+                for s_in, go in self.fork(s_c, self.truth(c, s_c)):
                     if not go:
                         exits.append((s_in, "exhausted"))
                         continue
@@ -1850,7 +1915,9 @@ class Executor:
         if hook0 is not None:
             return hook0(self, it, st)
         if k == "seq":
-            return z3.Length(it.v), (lambda i: unflat(it.ty.elem, [it.v[i]]))
+            elem = lambda i: unflat(it.ty.elem, [it.v[i]])
+            elem.seq = it.v
+            return z3.Length(it.v), elem
         if k in ("str", "bytes"):
             return z3.Length(it.v), (lambda i: SV(it.ty, z3.SubSeq(it.v, i, 1)))
         hook = self.w.call_hooks.get(("iter", k if k != "ref" else "ref:" + it.ty.cls))
